@@ -349,32 +349,40 @@ def run_ego(sd, ego, cases, chunk, tag):
             fn = os.path.join(pdir, "p%s_%05d.ego" % (tag, counter[0]))
             open(fn, "w").write(ego_program(cs))
             jobs.append(([ego, "run", "--types", mode, "-o", str(opt), fn], None, pdir, env))
-        return vf.run_many(jobs, timeout=120)
+        return vf.run_many(jobs, timeout=600)
 
-    batches = []
+    pending = []
     for (mode, opt), cs in sorted(groups.items()):
         for k in range(0, len(cs), chunk):
-            batches.append((mode, opt, cs[k:k + chunk]))
-    out, info = {}, {}
-    res = launch(batches)
-    missing = []
-    for (mode, opt, cs), (rc, so, se) in zip(batches, res):
-        got = parse_output(so, by_id)
-        out.update(got)
-        missing += [c for c in cs if c["id"] not in got]
-    nprog = len(batches)
-    if missing:
-        single = [(c["ctx"]["mode"], c["ctx"]["opt"], [c]) for c in missing]
-        res = launch(single)
-        nprog += len(single)
-        for (mode, opt, cs), (rc, so, se) in zip(single, res):
-            c = cs[0]
+            pending.append((mode, opt, cs[k:k + chunk], 0))
+    out, info, nprog = {}, {}, 0
+    while pending:
+        res = launch([(m, o, cs) for m, o, cs, _ in pending])
+        nprog += len(pending)
+        nxt = []
+        for (mode, opt, cs, tries), (rc, so, se) in zip(pending, res):
             got = parse_output(so, by_id)
-            if c["id"] in got:
-                out[c["id"]] = got[c["id"]]
-            else:
+            out.update(got)
+            missing = [c for c in cs if c["id"] not in got]
+            if not missing:
+                continue
+            if rc is None and tries < 2:                       # timed out (machine load): same cases again
+                nxt.append((mode, opt, missing, tries + 1))
+            elif rc is None:
+                raise vf.NoVerdict("ego program timed out three times: %s" % describe(missing[0], {"st": "?", "vals": []}))
+            elif len(cs) == 1:                                 # alone and still silent: the process died / did not compile
+                c = cs[0]
                 out[c["id"]] = {"st": "abort", "vals": []}
                 info[c["id"]] = {"rc": rc, "stdout": so[-600:], "stderr": se[-1200:]}
+            elif got:                                          # died while running: the first silent case is the suspect
+                nxt.append((mode, opt, missing[:1], 0))
+                if len(missing) > 1:
+                    nxt.append((mode, opt, missing[1:], 0))
+            else:                                              # nothing at all (does not compile): bisect
+                h = len(missing) // 2
+                nxt.append((mode, opt, missing[:h], 0))
+                nxt.append((mode, opt, missing[h:], 0))
+        pending = nxt
     return out, info, nprog
 
 
